@@ -91,3 +91,50 @@ Theorem C10_no_escape_repaired : forall hs ev,
   retry _ _ _ (rtc_match true) (fun _ => ev_colang_error) 1 hs ev <> None.
 Proof. exact no_escape_repaired. Qed.
 Print Assumptions C10_no_escape_repaired.
+
+(* ------------------------------------------------------------------------------------------ *)
+From NG Require Import V2.Cascade V2.Cascade_proofs.
+
+(* The event cascade of one run_to_completion under the REPAIRED restart logic
+   (fixes/C10-activated-abort-restart.patch) ends within a bound that depends only on the program
+   (through the checked certificate: weights per element) and on the number of live instances and
+   queued events - for every outcome of every expression and every reaction of every instance to
+   every internal event.
+   _partial: the cascade model has one head per instance (programs with ForkHead - groups, when -
+   are rejected by cascade_cert_ok), every actionable head wins its action conflict, and the
+   premise is the checked certificate (intra-flow: every cycle of the cascade graph passes a match
+   on an external event; inter-flow: the StartFlow graph of the segments that run without such a
+   match is acyclic - otherwise no weights exist; an activated flow does not rest on a user-level
+   match for an internal event before its first external match). *)
+Theorem C10_rtc_bound_partial : forall prog certs cleans,
+  cascade_cert_ok prog certs cleans = true ->
+  forall orc react st, swf prog certs st ->
+  exists st', cascade true prog orc react (rtc_bound prog certs (live st) (length (c_queue st))) st = COk st' /\
+              step true prog orc react st' = None.
+Proof. exact rtc_bound_thm. Qed.
+Print Assumptions C10_rtc_bound_partial.
+
+(* the measure behind it: every processed event strictly decreases the potential phi *)
+Theorem C10_cascade_potential : forall prog certs cleans,
+  cascade_cert_ok prog certs cleans = true ->
+  forall orc react st, swf prog certs st ->
+    step true prog orc react st = None \/
+    exists st', step true prog orc react st = Some (COk st') /\ swf prog certs st' /\
+                phi prog certs st' + 1 <= phi prog certs st.
+Proof. exact step_dec. Qed.
+Print Assumptions C10_cascade_potential.
+
+(* On the faithful model of the UNCHANGED restart logic the statement is false: `flow a: abort`,
+   `flow main: activate a; match X()` satisfies the premise, and after main has sent
+   StartFlow(a, activated) the cascade is still busy after n steps, for every n; with the
+   repaired guard the same state is quiescent after at most 20 steps. *)
+Theorem C10_activated_abort_refuted :
+  cascade_guardedb f4_prog = true /\
+  (forall n, cascade false f4_prog all_true all_advance n
+               (f4_after_send [ {| c_flow := 0; c_pos := 3; c_catch := []; c_status := CStarting; c_act := false;
+                                   c_restarted := false; c_inert := false |} ] [] 0) = COut) /\
+  (exists st', cascade true f4_prog all_true all_advance 20
+               (f4_after_send [ {| c_flow := 0; c_pos := 3; c_catch := []; c_status := CStarting; c_act := false;
+                                   c_restarted := false; c_inert := false |} ] [] 0) = COk st').
+Proof. exact activated_abort_refuted. Qed.
+Print Assumptions C10_activated_abort_refuted.
